@@ -112,6 +112,13 @@ class Ctx:
             if r is None:
                 raise lean.InfraError("no result from worker")
             if "timeout" in r:
+                # re-confirm on its own worker with three times the (CPU-time) limit before calling
+                # it non-termination: a slow case must never become a violation
+                r2 = pool.run_one(module, impl, c, timeout=3.0 * timeout)
+                if r2 is not None and "timeout" not in r2:
+                    st["slow_cases_rerun"] += 1
+                    r = r2
+            if "timeout" in r:
                 st["timeouts"] += 1
                 if timeout_is_violation:
                     self.oracle_hit(c, {"kind": "does-not-terminate", "limit_s": timeout}, group=group)
